@@ -5,10 +5,10 @@ package main
 
 import (
 	"bytes"
-	"math"
 	"context"
 	"encoding/json"
 	"fmt"
+	"math"
 	"math/rand/v2"
 	"os"
 	"path/filepath"
